@@ -102,11 +102,24 @@ class Cube:
         mk_segy(self.sgy, self.data, self.ilines, self.xlines, dt_us=dt_us, t0=t0,
                 hdr=lambda t, i, x: {segyio.TraceField.TRACE_SEQUENCE_FILE: t + 1, segyio.TraceField.CDP: 100 + 3 * t,
                                      segyio.TraceField.SourceX: 1000 * i - x, segyio.TraceField.ShotPoint: ((t * 37) % 11) * 1000 + t})
-        write_segy_sgz(self.sgy, self.sgz, bpv=16)
+        write_segy_sgz(self.sgy, self.sgz, bpv=16, header_detection=self.detection())
         with SgzReader(self.sgz) as r:
             self.vol = r.read_volume()
         self.n_il, self.n_xl = il[2], xl[2]
         self.ntr = self.n_il * self.n_xl
+
+    def detection(self):
+        """the default 'heuristic' header detection is documented to look at the first and the last trace only: it is used
+        when that is enough to tell this file's varying fields apart, 'thorough' otherwise"""
+        with segyio.open(self.sgy) as s:
+            arrs = {int(k): np.array(s.attributes(int(k))[:]) for k in dict(s.header[0]).keys()}
+        vary = {k: v for k, v in arrs.items() if len(set(v.tolist())) > 1}
+        ok = all(v[0] != v[-1] for v in vary.values())
+        for k1, k2 in itertools.combinations(sorted(vary), 2):
+            if (vary[k1][0], vary[k1][-1]) == (vary[k2][0], vary[k2][-1]) and not np.array_equal(vary[k1], vary[k2]):
+                ok = False
+        R.count('header_detection_heuristic' if ok else 'header_detection_thorough')
+        return 'heuristic' if ok else 'thorough'
 
     def keys(self, name):
         return self.ilines if name == 'iline' else self.xlines
